@@ -563,7 +563,7 @@ class C02(Check):
         broken += self._tracker(ctx, wntr)
         broken += self._refusals(ctx, wntr)
         corpus = [c["spec"] for _, c in vlib.corpus_items(self.pid) if "spec" in c]
-        specs = corpus + C.gen_specs(ctx, 30 if ctx.quick else 400, 22 if ctx.quick else 132)
+        specs = corpus + C.postsolve_setting_specs(ctx, wntr, 1 if ctx.quick else 6) + C.gen_specs(ctx, 30 if ctx.quick else 400, 22 if ctx.quick else 132)
         f, b = self._static_rows(ctx, wntr, specs[: (26 if ctx.quick else 250)])
         failures += f
         broken += b
@@ -580,7 +580,7 @@ class C02(Check):
         self.max_ratio, self.fit3 = {}, 0.0
         self._refcache, self._refcoef = {}, {}
         corpus = [c["spec"] for _, c in vlib.corpus_items(self.pid) if "spec" in c]
-        f, b = self._run_specs(ctx, wntr, corpus + C.gen_specs(ctx, 60, 44))
+        f, b = self._run_specs(ctx, wntr, corpus + C.postsolve_setting_specs(ctx, wntr, 3) + C.gen_specs(ctx, 60, 44))
         return f
 
     def replay(self, ctx, path):
